@@ -73,3 +73,50 @@ class Ctx:
             r = c[k] = self.res._resolve_call(call)
             self._keep.append(call)
         return r
+
+    def bound_args(self, f, call):
+        """Arguments of a call by the callee's parameter names, whether they
+        were passed by position or by keyword: {param: expr}.  Positional
+        arguments of an unresolved callee are keyed "#0", "#1", ..."""
+        try:
+            callees = list(self.resolve_call(f, call)[0])
+        except Exception:
+            callees = []
+        params = None
+        for c in callees:
+            ps = list(c.call_params)
+            if c.name == "__init__" or (c.cls is not None and
+                                        c.name == "__new__"):
+                ps = list(c.call_params)
+            if params is None:
+                params = ps
+            elif params != ps:
+                params = None
+                break
+        out = {}
+        for i, a in enumerate(call.args):
+            if isinstance(a, ast.Starred):
+                return {k.arg: k.value for k in call.keywords if k.arg}
+            if params is not None and i < len(params):
+                out[params[i]] = a
+            else:
+                out["#%d" % i] = a
+        for k in call.keywords:
+            if k.arg is not None:
+                out[k.arg] = k.value
+        return out
+
+    def first_arg(self, f, call):
+        """The argument bound to the callee's first parameter."""
+        if call.args:
+            return call.args[0]
+        b = self.bound_args(f, call)
+        try:
+            callees = list(self.resolve_call(f, call)[0])
+        except Exception:
+            callees = []
+        for c in callees:
+            if c.call_params and c.call_params[0] in b:
+                return b[c.call_params[0]]
+        return None
+
